@@ -42,6 +42,7 @@ CONSTANTS MaxMem, PruneN,      \* pruning thresholds (code: 100, 50)
 (* a .cfg cannot spell negative numbers: Ports <- PortsSmall / PortsAll                       *)
 PortsSmall == {-1, 7}
 PortsAll   == {-1, 0, 65535}
+PortsNone  == {-1}
 
 VARIABLES role, win, mem, seen, n
 vars == <<role, win, mem, seen, n>>
